@@ -114,12 +114,16 @@ impl Writer {
 
 impl Write for Writer {
     fn write(&mut self, buf: &[u8]) -> std::io::Result<usize> {
-        self.builder.input(buf);
         if let Some(mmap) = &mut self.mmap {
+            self.builder.input(buf);
             mmap.copy_from_slice(buf);
             Ok(buf.len())
         } else {
-            self.tmpfile.write(buf)
+            // Hash only what the file accepted: after a short write the
+            // caller submits the rest again.
+            let written = self.tmpfile.write(buf)?;
+            self.builder.input(&buf[..written]);
+            Ok(written)
         }
     }
 
@@ -306,13 +310,18 @@ impl AsyncWrite for AsyncWriter {
 
                         // Start the operation asynchronously.
                         *state = State::Busy(crate::async_lib::spawn_blocking(|| {
-                            inner.builder.input(&inner.buf);
                             if let Some(mmap) = &mut inner.mmap {
+                                inner.builder.input(&inner.buf);
                                 mmap.copy_from_slice(&inner.buf);
                                 inner.last_op = Some(Operation::Write(Ok(inner.buf.len())));
                                 State::Idle(Some(inner))
                             } else {
+                                // Hash only what the file accepted: after a
+                                // short write the caller submits the rest again.
                                 let res = inner.tmpfile.write(&inner.buf);
+                                if let Ok(written) = res {
+                                    inner.builder.input(&inner.buf[..written]);
+                                }
                                 inner.last_op = Some(Operation::Write(res));
                                 State::Idle(Some(inner))
                             }
